@@ -153,7 +153,7 @@ HdrFde(es, ems, offs, hm, h, rm, a) ==
     LET lk == HdrLookup(h, rm, a) IN
     IF ~lk.ok THEN lk
     ELSE IF lk.k # "direct" \/ hm.ptr.k # "direct" THEN PErr("UnsupportedIndirectPointer")
-    ELSE IF ULt8(lk.v, hm.ptr.v) THEN [ok |-> FALSE, err |-> "PANIC:pointer_to_offset"]
+    ELSE IF ULt8(lk.v, hm.ptr.v) THEN PErr("OffsetOutOfBounds")            \* checked_sub in pointer_to_offset
     ELSE LET d == Sub8(lk.v, hm.ptr.v)
              J == {j \in DOMAIN es : FitsNat(d) /\ offs[j] = ToNat(d)} IN
          IF J = {} THEN [ok |-> FALSE, err |-> "?:not-an-entry"]
